@@ -1019,8 +1019,46 @@ func runBehaviour(steps []bStep, auth string, maxqos int, res *Result) (result *
 			for _, f := range a.Fs {
 				body = append(body, lp([]byte(wireTopic(f)))...)
 			}
+			if a.Kind == "wide" {
+				// 900 filters nobody holds in front of the real ones
+				wide := []byte{byte(a.ID >> 8), byte(a.ID)}
+				for k := 0; k < 900; k++ {
+					wide = append(wide, lp([]byte(fmt.Sprintf("z%03x", k)))...)
+				}
+				body = append(wide, body[2:]...)
+			}
 			if _, err := r.conns[a.C].c.Write(pkt(0xa2, body)); err != nil {
 				return &brokerMismatch{where + ": write: " + err.Error(), "C05"}
+			}
+			if a.Kind == "wide" {
+				// wait for the UNSUBACK and nothing else: the next stimulus follows at once
+				m := r.conns[a.C]
+				deadline := time.Now().Add(r.tmo)
+				found := false
+				for !found && time.Now().Before(deadline) {
+					m.mu.Lock()
+					for i, p := range m.rx {
+						if p.first == 0xb0 {
+							for _, q := range m.rx[:i+1] {
+								got[a.C] = append(got[a.C], decodeRaw(q))
+							}
+							m.rx = append([]rawPkt(nil), m.rx[i+1:]...)
+							found = true
+							break
+						}
+					}
+					m.mu.Unlock()
+					if !found {
+						select {
+						case <-m.sig:
+						case <-time.After(time.Millisecond):
+						}
+					}
+				}
+				if !found {
+					return &brokerMismatch{where + ": no UNSUBACK within " + r.tmo.String(), "C07"}
+				}
+				skipBarrier[a.C] = true
 			}
 		case "publish":
 			first := byte(0x30) | byte(a.Q)<<1
